@@ -3,9 +3,11 @@ import hashlib
 import itertools
 import json
 import random
+import re
 import shutil
+import time
 
-from ..common import (REPO, WORK, Report, cbool, chex, clist, cstr, decide, esc, run_case_shards, run_impl,
+from ..common import (NCPU, REPO, WORK, Report, cbool, chex, clist, cstr, decide, esc, run_case_shards, run_impl,
                       standard_proof_part, write_replay)
 
 PROP = "C17"
@@ -226,13 +228,16 @@ def render_domain(rng, dom, view=None, overrides=None):
         tl = [x for x in tl if x not in bare]
     parts = ["(define (domain %s)" % dom["name"], "(:requirements %s)" % " ".join(view["reqs"])]
     if tl or bare:
-        parts.append("(:types %s %s)" % (render_typed_list(rng, tl), " ".join(b[0] for b in bare)))
+        parts.append("(:types %s %s)" % (render_typed_groups(rng, tl), " ".join(b[0] for b in bare)))
+    untyped = bool(dom.get("untyped"))
     consts = [(c, ov.get(("consts", c), t)) for c, t in dom["consts"] if c in view["consts"]]
     rng.shuffle(consts)
     if consts:
-        parts.append("(:constants %s)" % render_typed_list(rng, consts))
+        parts.append("(:constants %s)" % render_typed_list(rng, consts, untyped))
 
     def sig_text(sg):
+        if untyped:
+            return " ".join(n for n, _ in sg)
         return " ".join("%s - %s" % (n, t) for n, t in sg)
     preds = [(p, ov.get(("preds", p), sg)) for p, sg in dom["preds"] if p in view["preds"]]
     rng.shuffle(preds)
@@ -317,8 +322,12 @@ def gen_problem(rng, dom):
     for t, _ in types:
         for i in range(rng.choice([0, 1, 1, 2, 3])):
             objs.append(("%s%d" % (t[:3], i), t))
-    if not any(is_sub(types, t, "agent") for _, t in objs):
+    if not dom.get("untyped") and not any(is_sub(types, t, "agent") for _, t in objs):
         objs.append(("age9", "agent"))
+    # objects of the root type (the only kind an untyped domain has)
+    for i in range(rng.choice([0, 0, 1, 2]) + (2 if dom.get("untyped") else 0)):
+        objs.append(("obj%d" % i, "object"))
+    rng.shuffle(objs)
     everything = objs + dom["consts"]
 
     def ground(sg):
@@ -356,9 +365,64 @@ def gen_problem(rng, dom):
     if len(fluents) >= 2 and rng.random() < 0.3:    # a goal comparing two fluents
         a, b = rng.sample(sorted(fluents), 2)
         ngoals.append("(%s %s (+ %s %s))" % (rng.choice([">=", "<="]), a, b, rng.choice(NUMS)))
+    near = 0
+    if fluents and rng.random() < 0.6:
+        # DISTINCT goals that are near-duplicates of each other: same comparison and fluent expression, constants that
+        # differ only beyond the 4th / 2nd / 10th decimal (they print alike at the library's 4 and 2 digits); the same
+        # comparison with its operands swapped; the mirrored comparison (the same condition, another form)
+        for _ in range(rng.randint(1, 2)):
+            key, op, c = rng.choice(sorted(fluents)), rng.choice([">=", "<=", ">", "<", "="]), rng.choice(NUMS)
+            family = near_constants(rng, c)
+            shape = rng.random()
+            for x in family:
+                if shape < 0.7:
+                    ngoals.append("(%s %s %s)" % (op, key, x))
+                elif shape < 0.85:
+                    ngoals.append("(%s %s %s)" % (op, x, key))
+                else:
+                    ngoals.append("(%s (+ %s %s) %s)" % (op, key, x, c))
+            near += len(family)
+            if rng.random() < 0.3:
+                ngoals.append("(%s %s %s)" % (MIRROR[op], family[0], key))
     ngoals = list(dict.fromkeys(ngoals))
     return {"name": "prob%d" % rng.randint(0, 99), "domain": dom["name"], "objs": objs, "facts": facts,
-            "fluents": sorted(fluents.items()), "goals": goals, "ngoals": ngoals}
+            "fluents": sorted(fluents.items()), "goals": goals, "ngoals": ngoals, "near": near,
+            "untyped": bool(dom.get("untyped"))}
+
+
+MIRROR = {">=": "<=", "<=": ">=", ">": "<", "<": ">", "=": "="}
+NEAR_STEPS = [["0.00001", "0.00004", "-0.00002", "0.000049"],      # equal after rounding to 4 decimals
+              ["0.001", "0.004", "-0.002", "0.0049"],              # equal after rounding to 2 decimals, not to 4
+              ["0.00000000001", "0.00000000004", "-0.00000000002"]]  # equal after rounding to 10 decimals
+
+
+def near_constants(rng, c):
+    """2-4 decimal texts of different numbers around c that print alike at some number of digits (c itself included
+    half of the time)"""
+    from decimal import Decimal
+    steps = rng.choice(NEAR_STEPS)
+    out = [format(Decimal(c) + Decimal(d), "f") for d in rng.sample(steps, rng.randint(2, min(3, len(steps))))]
+    if rng.random() < 0.5:
+        out.append(c)
+    rng.shuffle(out)
+    return out
+
+
+def respell(rng, goal):
+    """the same numeric goal written differently: 2 / 2.0 / 2.00, 0.5 / 0.50, extra blanks (the numbers denoted, the
+    operator and the operand order are unchanged, so every spelling is the SAME goal)"""
+    def num(m):
+        t = m.group(1)
+        r = rng.random()
+        if r < 0.6:
+            return t
+        if "." not in t:
+            return t + rng.choice([".0", ".00"])
+        return t + rng.choice(["0", "00"])
+    out = re.sub(r"(?<![\w.?+-])(\d+(?:\.\d+)?)(?=[\s)])", num, goal)
+    if rng.random() < 0.3:
+        out = out.replace(" ", "  ").replace(")", " )", 1)
+    return out
 
 
 def mentioned(text, names):
@@ -401,18 +465,22 @@ def render_problem(rng, prob, view=None, overrides=None, whole=None):
     if view is None:
         view = {"objs": {o for o, _ in prob["objs"]}, "facts": prob["facts"], "fluents": prob["fluents"],
                 "goals": prob["goals"], "ngoals": prob["ngoals"]}
+    untyped = bool(prob.get("untyped"))
     objs = [(o, ov.get(("objs", o), t)) for o, t in prob["objs"] if o in view["objs"]]
     rng.shuffle(objs)
     k = rng.randint(0, len(objs)) if rng.random() < 0.5 else len(objs)
-    otxt = render_typed_list(rng, objs[:k])
+    otxt = render_typed_list(rng, objs[:k], untyped)
     if objs[k:]:
-        otxt += " (:private %s)" % render_typed_list(rng, objs[k:])
+        otxt += " (:private %s)" % render_typed_list(rng, objs[k:], untyped)
     init = list(view["facts"]) + ["(= %s %s)" % (key, ov.get(("fluents", key), val)) for key, val in view["fluents"]]
     rng.shuffle(init)
-    goal = list(view["goals"]) + list(view["ngoals"])
+    if init and not whole and rng.random() < 0.15:
+        init.insert(rng.randrange(len(init) + 1), rng.choice(init))   # a fact / fluent value stated twice in one file
+    goal = list(view["goals"]) + [g if whole else respell(rng, g) for g in view["ngoals"]]
     rng.shuffle(goal)
     if goal and not whole and rng.random() < 0.15:
-        goal.append(rng.choice(goal))   # a goal repeated inside one file
+        g = rng.choice(goal)
+        goal.append(respell(rng, g) if g in view["ngoals"] else g)   # a goal repeated inside one file
     return "(define (problem %s) (:domain %s)\n(:objects %s)\n(:init %s)\n(:goal (and %s))\n)\n" % (
         prob["name"], prob["domain"], otxt, " ".join(init), " ".join(goal))
 
@@ -436,6 +504,8 @@ def inject_problem_conflict(rng, prob, views, dom=None):
         return None
     key, holders = rng.choice(shared)
     old = dict(prob["fluents"])[key]
+    if rng.random() < 0.4:      # a value that differs from the other files' only beyond the printed digits
+        return rng.choice(holders), {("fluents", key): near_constants(rng, old)[0] + "1"}, "fluent value (near)"
     return rng.choice(holders), {("fluents", key): rng.choice([x for x in NUMS if x != old])}, "fluent value"
 
 
@@ -449,7 +519,15 @@ def other_domains(rng):
     typed = ("(define (domain typed%d) (:requirements :typing)\n(:types kind%d - object sub%d - kind%d)\n"
              "(:constants k0 - sub%d)\n(:predicates (r ?x - kind%d))\n"
              "(:action b :parameters (?x - sub%d) :precondition (and (r ?x)) :effect (and (not (r ?x)))))\n" % ((k,) * 7))
-    return {"untyped.pddl": untyped, "typed.pddl": typed}
+    # a domain that uses the NAMES of the generated agent files (types of the pool and `agent`, constants c0.., predicates
+    # and actions of the pools) with a hierarchy of its own: nothing of it may change, and nothing of it may show up
+    # in the combination
+    a, b, c = rng.sample(TYPE_POOL, 3)
+    shared = ("(define (domain shared%d) (:requirements :typing)\n(:types %s %s - object agent - %s %s - %s)\n"
+              "(:constants c0 - %s c1 - agent c2)\n(:predicates (at ?x - agent) (in ?x - %s ?y - object))\n"
+              "(:action move :parameters (?ag - %s ?x - %s) :precondition (and (in ?x c0)) :effect (and (at c1) (not (in ?x c0)))))\n"
+              % (k, a, b, a, c, b, c, c, a, c))
+    return {"untyped.pddl": untyped, "typed.pddl": typed, "shared.pddl": shared}
 
 
 # ------------------------------------------------------------------------------------------------
@@ -464,17 +542,17 @@ def orders_for(rng, names, tier):
         return out + ([list(perms[0])] if n == 1 and tier == "thorough" else [])
     if tier == "quick":
         picks = [perms[0], perms[-1]] + ([rng.choice(perms[1:-1])] if n > 2 else [])
-    elif n <= 3:
+    elif n <= 3 or len(perms) <= 24:
         picks = perms
     else:
-        picks = [perms[0], perms[-1]] + rng.sample(perms[1:-1], 10)
+        picks = perms           # thorough: every discovery order, also of four files (24)
     return out + [list(p) for p in picks]
 
 
 def generated_directories(rng, tier):
     ndirs = 100 if tier == "quick" else 500
     for k in range(ndirs):
-        dom = gen_domain(rng)
+        dom = gen_domain(rng, untyped=rng.random() < 0.12)
         n = rng.choice([1, 2, 2, 3, 3, 4])
         agents = rng.sample(range(100, 999), n)
         views = split_domain(rng, dom, n)
@@ -495,7 +573,7 @@ def generated_directories(rng, tier):
                "original_problem": None if (conflict or pconflict) else render_problem(rng, prob),
                "conflict": conflict[2] if conflict else None,
                "pconflict": pconflict[2] if pconflict else None,
-               "others": other_domains(rng), "n": n}
+               "others": other_domains(rng), "n": n, "untyped": bool(dom.get("untyped")), "near": prob.get("near", 0)}
 
 
 def fixture_directories():
@@ -614,13 +692,17 @@ def build_jobs(rng, tier):
                    "dfiles": d["dfiles"], "pfiles": d["pfiles"], "dummy": rng.random() < 0.35,
                    "others": d["others"], "original_domain": d["original_domain"],
                    "original_problem": d["original_problem"], "conflict": d["conflict"], "pconflict": d["pconflict"],
-                   "n": d["n"], "domain_path": d.get("domain_path"), "dorder": None, "porder": None}
+                   "n": d["n"], "domain_path": d.get("domain_path"), "dorder": None, "porder": None,
+                   "untyped": d.get("untyped", False), "near": d.get("near", 0)}
             if order is not None:
                 job["dorder"] = [x for x in order if x in d["dfiles"]] or None
                 # the problems are enumerated independently of the domains: give them their own order
                 porder = list(pnames)
                 rng.shuffle(porder)
                 job["porder"] = porder
+            # the other setting of add_dummy_actions is combined, exported and re-parsed too: for every job (thorough),
+            # for the first two orders of a directory (quick)
+            job["alt"] = tier == "thorough" or oi <= 1
             if d["kind"] == "exhaustive" and order is None:
                 continue        # both forced orders cover the real one
             # structured correspondence (texts parsed by the model's parser): the first two orders of a directory
@@ -635,14 +717,20 @@ def build_jobs(rng, tier):
 # ------------------------------------------------------------------------------------------------
 # Coq literals
 # ------------------------------------------------------------------------------------------------
-def short(text):
-    if len(text) <= 110 and esc(text) == text:
+def short(text, limit=110, keep=40):
+    """texts cross as they are up to [limit] characters, longer ones as a prefix and a SHA-1 digest of the whole"""
+    if len(text) <= limit and esc(text) == text:
         return text
-    return esc(text[:40]).replace("`", "'") + "..#" + hashlib.sha1(text.encode()).hexdigest()[:12]
+    return esc(text[:keep]).replace("`", "'") + "..#" + hashlib.sha1(text.encode()).hexdigest()[:12]
 
 
-def cpairs(pairs):
-    return clist('(%s,%s)' % (cstr(short(k)), cstr(short(v))) for k, v in pairs)
+def cpairs(pairs, limit=110, keep=40):
+    return clist('(%s,%s)' % (cstr(short(k)), cstr(short(v, limit, keep))) for k, v in pairs)
+
+
+def cacts(pairs):
+    """action texts are long: they cross as 28 characters and a digest, except the dummy actions' (the model states them)"""
+    return clist('(%s,%s)' % (cstr(short(k)), cstr(short(v) if k.startswith("dummy-") else short(v, 44, 28))) for k, v in pairs)
 
 
 def cstrs(items):
@@ -652,7 +740,7 @@ def cstrs(items):
 def domain_lit(d):
     name = "None" if d["name"] is None else "(Some %s)" % cstr(short(d["name"]))
     return "(D %s %s %s %s %s %s %s)" % (name, cstrs(d["reqs"]), cpairs(d["types"]), cpairs(d["consts"]),
-                                         cpairs(d["preds"]), cpairs(d["funcs"]), cpairs(d["acts"]))
+                                         cpairs(d["preds"]), cpairs(d["funcs"]), cacts(d["acts"]))
 
 
 def problem_lit(p):
@@ -686,13 +774,14 @@ def dcase_lit(job, res):
     fresh = cstrs(dict.fromkeys([k for k, _ in res["default_after"]["fresh"]] + [k for k, _ in res["default_end"]["fresh"]]))
     default = cstrs(dict.fromkeys([k for k, _ in res["default_after"]["DEFAULT_TYPES"]] +
                                   [k for k, _ in res["default_end"]["DEFAULT_TYPES"]]))
-    return "(CD (DC %s %s %s %s %s %s %s %s %s %s %s))" % (
+    return "(CD (DC %s %s %s %s %s %s %s %s %s %s))" % (
         cpairs(res["default_before"]["fresh"]), cbool(job["dummy"]),
         clist(obs_lit(r, domain_lit) for r in res["dfiles"]), obs_lit(res["dobs"], domain_lit),
         fresh, default,
         others_lit(res, ("others_before", "others_mid", "others_again_mid", "others_after", "others_again")),
-        rt_lit(res, "dobs", "drt", domain_lit), obs_lit(res.get("dobs2"), domain_lit),
-        rt_lit(res, "dobs2", "drt2", domain_lit),
+        rt_lit(res, "dobs", "drt", domain_lit),
+        ("(Some (%s, %s))" % (obs_lit(res["dobs2"], domain_lit), rt_lit(res, "dobs2", "drt2", domain_lit))
+         if "dobs2" in res else "None"),
         opt_lit(res.get("dexpect"), domain_lit))
 
 
@@ -705,6 +794,113 @@ def pcase_lit(job, res):
                             [k for k, _ in res["default_end"]["fresh"]])),
         others_lit(res, ("others_before", "others_after", "others_again")),
         opt_lit(res.get("pexpect"), problem_lit))
+
+
+class Table:
+    """texts of one group, each once; a text crosses as its position (Corr/C17.v: tget / ES / EA / ED / EP)"""
+
+    def __init__(self):
+        self.index, self.items = {}, []
+
+    def __call__(self, text):
+        i = self.index.get(text)
+        if i is None:
+            i = self.index[text] = len(self.items)
+            self.items.append(text)
+        return "%d" % i
+
+    def lit(self):
+        return clist(cstr(x) for x in self.items)
+
+
+def e_strs(T, items):
+    return clist(T(short(x)) for x in items)
+
+
+def e_pairs(T, pairs, acts=False):
+    out = []
+    for k, v in pairs:
+        out.append(T(short(k)))
+        out.append(T(short(v) if not acts or k.startswith("dummy-") else short(v, 44, 28)))
+    return clist(out)
+
+
+def e_domain(T):
+    def render(d):
+        name = "None" if d["name"] is None else "(Some %s)" % T(short(d["name"]))
+        return "(ED t %s %s %s %s %s %s %s)" % (name, e_strs(T, d["reqs"]), e_pairs(T, d["types"]), e_pairs(T, d["consts"]),
+                                                e_pairs(T, d["preds"]), e_pairs(T, d["funcs"]), e_pairs(T, d["acts"], acts=True))
+    return render
+
+
+def e_problem(T):
+    def render(p):
+        facts = clist("(%s,%s)" % (T(short(k)), e_strs(T, fs)) for k, fs in p["facts"])
+        return "(EP t %s %s %s %s %s %s)" % (T(short(p["name"])), e_pairs(T, p["objs"]), facts, e_pairs(T, p["fluents"]),
+                                             e_strs(T, p["goals"]), e_strs(T, p["ngoals"]))
+    return render
+
+
+def e_names(T, *states):
+    return "(ES t %s)" % clist(dict.fromkeys(T(k) for st in states for k, _ in st))
+
+
+def e_others(T, res, keys):
+    return clist("(EA t %s)" % e_pairs(T, res[k]) for k in keys if k in res)
+
+
+def drun_fields(T, job, res):
+    dl = e_domain(T)
+    return (cbool(job["dummy"]), obs_lit(res["dobs"], dl),
+            e_names(T, res["default_after"]["fresh"], res["default_end"]["fresh"]),
+            e_names(T, res["default_after"]["DEFAULT_TYPES"], res["default_end"]["DEFAULT_TYPES"]),
+            e_others(T, res, ("others_before", "others_mid", "others_again_mid", "others_after", "others_again")),
+            rt_lit(res, "dobs", "drt", dl),
+            ("(Some (%s, %s))" % (obs_lit(res["dobs2"], dl), rt_lit(res, "dobs2", "drt2", dl)) if "dobs2" in res else "None"))
+
+
+def prun_fields(T, job, res):
+    pl = e_problem(T)
+    return (obs_lit(res["pobs"], pl), rt_lit(res, "pobs", "prt", pl),
+            e_names(T, res["default_after_problems"]["fresh"], res["default_after_problems"]["DEFAULT_TYPES"],
+                    res["default_end"]["fresh"]),
+            e_others(T, res, ("others_before", "others_after", "others_again")))
+
+
+def group_cases(entries):
+    """entries: (part 'd'|'p', job, res, case) in run order.  The runs of one directory share the per-file dumps (checked:
+    a run whose dumps differ from the first run's opens a group of its own); each group crosses as one Coq literal
+    (let t := [texts] in GD ... / GP ..., Corr/C17.v) with one verdict per run.  Returns (cases in verdict order,
+    literals, units)."""
+    groups, index = [], {}
+    for part, job, res, case in entries:
+        names, dumps = (res["dorder"], res["dfiles"]) if part == "d" else (res["porder"], res["pfiles"])
+        files = dict(zip(names, dumps))
+        expect = res.get("dexpect" if part == "d" else "pexpect")
+        key = (part, job.get("dir"), json.dumps([sorted(files.items()), expect, res["default_before"]["fresh"]], sort_keys=True))
+        if key not in index:
+            index[key] = len(groups)
+            groups.append({"part": part, "names": sorted(files), "files": files, "expect": expect,
+                           "defaults": res["default_before"]["fresh"], "runs": []})
+        g = groups[index[key]]
+        g["runs"].append(([g["names"].index(n) for n in names], job, res, case))
+    cases, lits, units = [], [], []
+    for g in groups:
+        T = Table()
+        order_lit = lambda o: clist("%d" % i for i in o)     # noqa: E731
+        if g["part"] == "d":
+            dl = e_domain(T)
+            runs = clist("(DR %s %s)" % (order_lit(o), " ".join(drun_fields(T, job, res))) for o, job, res, _ in g["runs"])
+            body = "GD (EA t %s) %s %s %s" % (e_pairs(T, g["defaults"]), clist(obs_lit(g["files"][n], dl) for n in g["names"]),
+                                             opt_lit(g["expect"], dl), runs)
+        else:
+            pl = e_problem(T)
+            runs = clist("(PR %s %s)" % (order_lit(o), " ".join(prun_fields(T, job, res))) for o, job, res, _ in g["runs"])
+            body = "GP %s %s %s" % (clist(obs_lit(g["files"][n], pl) for n in g["names"]), opt_lit(g["expect"], pl), runs)
+        lits.append("(let t := %s in %s)" % (T.lit(), body))
+        units.append(len(g["runs"]))
+        cases.extend(c for _, _, _, c in g["runs"])
+    return cases, lits, units
 
 
 def types_agree(dumps):
@@ -769,9 +965,15 @@ def closed_dump(d):
 # ------------------------------------------------------------------------------------------------
 def run(args):
     rep = Report(PROP, args.tier, args.seed)
+    timing, t_last = {}, [time.time()]
+
+    def lap(name):
+        timing[name] = round(time.time() - t_last[0], 1)
+        t_last[0] = time.time()
     if not args.replay:
         shutil.rmtree(WORK / PROP / "replays", ignore_errors=True)
     standard_proof_part(rep, PROP)
+    lap("proof_part")
     rng = random.Random(args.seed * 104729 + 17)
     if args.replay:
         data = json.load(open(args.replay))
@@ -779,8 +981,9 @@ def run(args):
         jobs[0]["keep"] = True
     else:
         jobs = build_jobs(rng, args.tier)
-    results = run_impl(jobs, hashseed=args.seed % 5)
-    cases, cross = [], {}
+    results = run_impl(jobs, hashseed=args.seed % 5, nproc=min(NCPU, max(1, len(jobs) // 12)))
+    lap("implementation")
+    entries, cross = [], {}
     for job, res in zip(jobs, results):
         if "default_before" not in res:     # the op itself failed
             p = write_replay(PROP, "op_failed_%s" % job["case"], {"kind": "correspondence", "why": "implementation driver failed",
@@ -788,15 +991,24 @@ def run(args):
             rep.violation(p, False)
             continue
         slim = dict(res)
-        cases.append({"lit": dcase_lit(job, res), "input": {"job": job, "part": "domains", "implementation": slim},
-                      "nontrivial": nontrivial_maps(res["dfiles"], ("types", "consts", "preds", "funcs", "acts")),
-                      "witness_of": None})
+        entries.append(("d", job, res, {
+            "lit": dcase_lit(job, res), "input": {"job": job, "part": "domains", "implementation": slim},
+            "nontrivial": nontrivial_maps(res["dfiles"], ("types", "consts", "preds", "funcs", "acts")), "witness_of": None}))
         if "pobs" in res:
-            cases.append({"lit": pcase_lit(job, res), "input": {"job": job, "part": "problems", "implementation": slim},
-                          "nontrivial": nontrivial_maps(res["pfiles"], ("objs", "fluents")), "witness_of": None})
+            entries.append(("p", job, res, {
+                "lit": pcase_lit(job, res), "input": {"job": job, "part": "problems", "implementation": slim},
+                "nontrivial": nontrivial_maps(res["pfiles"], ("objs", "fluents")), "witness_of": None}))
         cross.setdefault(job.get("dir"), []).append((job, res))
-    verdicts, info = run_case_shards(PROP, "Corr.C17", [c["lit"] for c in cases], shard_size=60, max_bytes=110_000)
+    # the runs of a directory cross as one literal (per-file dumps once); cases[i] keeps the stand-alone literal of run i
+    # for the replay's explanation
+    cases, glits, gunits = group_cases(entries)
+    verdicts, info = run_case_shards(PROP, "Corr.C17", glits, shard_size=12, max_bytes=40_000, units=gunits,
+                                     run_fn="run_groups")
+    lap("coq_dump_cases")
+    timing["dump_case_literal_bytes"] = sum(len(x) for x in glits)
+    timing["dump_case_shards"] = info.get("shards")
     decide(rep, PROP, "Corr.C17", cases, verdicts, info, explain_expr="explain %s")
+    lap("decide_dump_cases")
     # structured correspondence: the model parses the texts itself, combines, exports (C08's exporter model), re-parses
     scases = []
     for job, res in zip(jobs, results):
@@ -813,6 +1025,7 @@ def run(args):
         sverdicts, sinfo = run_case_shards(PROP, "Corr.C17s", lits, shard_size=40, max_bytes=110_000, units=[3] * len(lits),
                                            header_extra=hdr)
         vc1, dn1 = dict(rep.coverage.get("verdict_counts", {})), rep.coverage.get("distinct_nontrivial", 0)
+        lap("coq_structured_cases")
         decide(rep, PROP, "Corr.C17s", scases, sverdicts, sinfo, explain_expr="explain %s", header_extra=hdr)
         vc2 = rep.coverage.get("verdict_counts", {})
         rep.coverage["verdict_counts"] = {k: vc1.get(k, 0) + vc2.get(k, 0) for k in set(vc1) | set(vc2)}
@@ -888,6 +1101,37 @@ def run(args):
             [g for f in r["pfiles"] if "ok" in f for g in set(f["ok"]["ngoals"])]) > len(
             {g for f in r["pfiles"] if "ok" in f for g in f["ok"]["ngoals"]})),
     }
+    def object_before_other(consts):
+        seen_obj = False
+        for _, t in consts:
+            if t == "object":
+                seen_obj = True
+            elif seen_obj:
+                return True
+        return False
+
+    def near_dups(ngoals):
+        printed = [g.split(" #")[0] for g in set(ngoals)]
+        return len(printed) > len(set(printed))
+    dist["new_classes"] = {
+        "untyped_directories": len({j.get("dir") for j in jobs if j.get("untyped")}),
+        "combinations_with_a_constant_of_type_object": sum(
+            1 for r in results if "ok" in r.get("dobs", {}) and any(t == "object" for _, t in r["dobs"]["ok"]["consts"])),
+        "combinations_with_an_object_typed_constant_before_a_constant_of_another_type": sum(
+            1 for r in results if "ok" in r.get("dobs", {}) and object_before_other(r["dobs"]["ok"]["consts"])),
+        "agent_files_declaring_a_constant_bare_at_the_end": sum(
+            1 for j in jobs for t in j["dfiles"].values() if re.search(r"\(:constants [^()]*[^()\s-]\s+[^()\s-]+\)", t) and
+            not re.search(r"\(:constants [^()]*-\s+[^()\s]+\)", t)) if False else None,
+        "combinations_with_an_object_typed_object_before_an_object_of_another_type": sum(
+            1 for r in results if "ok" in r.get("pobs", {}) and object_before_other(r["pobs"]["ok"]["objs"])),
+        "combined_problems_with_distinct_numeric_goals_that_print_alike": sum(
+            1 for r in results if "ok" in r.get("pobs", {}) and near_dups(r["pobs"]["ok"]["ngoals"])),
+        "directories_with_near_duplicate_numeric_goals": len({j.get("dir") for j in jobs if j.get("near")}),
+        "jobs_with_both_dummy_settings": sum(1 for r in results if "dobs2" in r),
+        "exports_reparsed": sum(1 for r in results for k in ("drt", "drt2", "prt") if k in r),
+        "unrelated_domains_per_job": max([len(j.get("others", {})) for j in jobs] or [0]),
+    }
+    del dist["new_classes"]["agent_files_declaring_a_constant_bare_at_the_end"]
     sizes = [len(r["dobs"]["ok"][s]) for r in results if "ok" in r.get("dobs", {}) for s in ("types", "preds", "acts")]
     dist["combined_section_size_max"] = max(sizes) if sizes else 0
     wf_all, wf_comb = 0, 0
@@ -906,6 +1150,7 @@ def run(args):
     dist["order_independence_groups"] = order_groups
     dist["order_independence_pairs_compared"] = order_pairs
     cov["input_distribution"] = dist
+    cov["timing_s"] = timing
     cov["exhaustive"] = False    # the small scope above is complete (thorough), the generated directories are a sample
     cov["rule"] = ("random typed domains (1-7 types in a forest, constants, 2-6 predicates, 0-3 functions, 1-6 actions with an agent "
                    "parameter, numeric conditions/effects) and problems (objects, facts, fluent values, goal literals, numeric goals) split "
